@@ -142,17 +142,17 @@ Lemma matchers_agree : forall c, s_is_if_not (c_fn c) = false -> m_match c = s_m
 Proof. intros c H. unfold m_match, s_match. destruct (c_fn c); try discriminate H; reflexivity. Qed.
 
 Lemma parse_sfv_scan : forall c,
-  no_count (c_fn c) = true -> keywords_ok c = true -> not_test_not (c_test c) = true ->
+  no_count (c_fn c) = true -> keywords_ok c = true ->
   parse_sfv c = Some (mkSfv (s_start c) (c_end c) None (c_from_end c)).
 Proof.
-  intros c Hn Hk Ht. unfold keywords_ok in Hk. apply andb_true_iff in Hk as [K1 K2].
+  intros c Hn Hk. unfold keywords_ok in Hk. apply andb_true_iff in Hk as [K1 K2].
   assert (takes_count (c_fn c) = false) as Tc by (destruct (c_fn c); cbn in Hn |- *; congruence).
   rewrite Tc in K2. cbn in K2.
   unfold parse_sfv, s_start. destruct (c_count c); try discriminate.
-  destruct (c_test c) eqn:T; try discriminate; try reflexivity.
-  destruct (is_if (c_fn c)) eqn:I; [|reflexivity].
-  assert (takes_no_test (c_fn c) = true) as Tn by (destruct (c_fn c); cbn in I |- *; congruence).
-  rewrite Tn in K1. cbn in K1. discriminate.
+  destruct (c_test c) eqn:T; try reflexivity;
+    (destruct (is_if (c_fn c)) eqn:I; [|reflexivity];
+     assert (takes_no_test (c_fn c) = true) as Tn by (destruct (c_fn c); cbn in I |- *; congruence);
+     rewrite Tn in K1; cbn in K1; discriminate).
 Qed.
 
 Definition is_scan_fn (f : fname) : bool :=
@@ -195,16 +195,14 @@ Section Scan.
     unfold slice; rewrite skipn_nil, firstn_nil. unfold s_position. destruct (c_from_end c); reflexivity.
   Qed.
 
-  Lemma m_count_eq : seq_ascii (c_seq c) = true -> m_count c v = RInt (Z.of_nat (s_count (s_match c) w)).
+  Lemma m_count_eq : m_count c v = RInt (Z.of_nat (s_count (s_match c) w)).
   Proof.
-    intros Ha. unfold m_count. cbn [v_start v_end v_from_end].
-    assert (norm_end (go_len (c_seq c)) (c_end c) = s_end c l) as Hne.
-    { rewrite (go_len_ascii _ Ha). unfold s_end. apply norm_end_in_range. exact B2. }
+    unfold m_count. cbn [v_start v_end v_from_end].
+    assert (norm_end (length l) (c_end c) = s_end c l) as Hne.
+    { unfold s_end. apply norm_end_in_range. exact B2. }
     rewrite matchers_agree by exact NI.
     destruct (c_seq c) eqn:S; cbn [elems] in *;
-      try (rewrite Hne;
-           match goal with |- context [(length ?a <? ?b)%nat] => destruct (Nat.ltb_spec (length a) b) end; [lia|]; cbn [andb];
-           rewrite count_loop_eq; unfold s_count;
+      try (rewrite Hne; rewrite count_loop_eq; unfold s_count;
            destruct (c_from_end c); [rewrite filter_rev_length|]; reflexivity).
     unfold slice; rewrite skipn_nil, firstn_nil. reflexivity.
   Qed.
@@ -217,19 +215,14 @@ Proof.
   assert (Hb := Hd). split_dom Hb D2 D1 D0 D.
   unfold bounds_ok in Hb. apply andb_true_iff in Hb as [B1 B2].
   apply Nat.leb_le in B1, B2.
-  assert (not_test_not (c_test c) = true) as Htn.
-  { pose proof D0 as K. unfold keywords_ok in K. apply andb_true_iff in K as [K _].
-    destruct (c_fn c) eqn:F; try discriminate Hf; cbn in D, K;
-      try (apply andb_true_iff in D as [D _]); try exact D;
-      destruct (c_test c); try discriminate; reflexivity. }
   assert (no_count (c_fn c) = true) as Hnc by (destruct (c_fn c); try discriminate; reflexivity).
-  pose proof (parse_sfv_scan c Hnc D0 Htn) as Hp.
+  pose proof (parse_sfv_scan c Hnc D0) as Hp.
   unfold m_call, s_call. rewrite Hp.
   destruct (c_fn c) eqn:F; try discriminate Hf.
   - rewrite m_find_eq; auto; now rewrite F.
   - rewrite m_find_eq; auto; now rewrite F.
   - rewrite m_position_eq; auto; now rewrite F.
   - rewrite m_position_eq; auto; now rewrite F.
-  - rewrite m_count_eq; auto; try (now rewrite F). cbn in D. apply andb_true_iff in D as [_ D]. exact D.
+  - rewrite m_count_eq; auto; now rewrite F.
   - rewrite m_count_eq; auto; now rewrite F.
 Qed.
